@@ -187,7 +187,7 @@ theorem mem_editAt {f : Forest} {p : Nat} {v : Value} {L : List HTree} (s : Site
   by_cases hL : z ∈ handlesList L
   · have h3 : 0 < (handlesList (g L)).count z := List.count_pos_iff.2 (h hL)
     have hsub : (handlesList L).count z ≤ f.allHandles.count z := by
-      have := (findList?_sublist f.roots _ s.kids).count_le z
+      have := (fs_findList?_sublist f.roots _ s.kids).count_le z
       rw [handles_node, List.count_cons] at this
       unfold Forest.allHandles
       omega
